@@ -179,6 +179,24 @@ def stored(p, sub, kind):
 def check_activation(w, sim, p, fail):
     """The live table must reflect the stored configuration; then probe behaviour."""
     if p.degenerate():
+        # the stored count covers an entry that names no object: such a configuration cannot be activated - the node must not map
+        # "nothing" or leftovers of an earlier configuration instead: a TPDO stays silent, an RPDO changes no object
+        cid = p.cob & 0x7FF
+        if p.tx:
+            evs = sim.cmd("trigpdo %d" % p.num) + sim.cmd("tick 130")
+            for k in range(3):
+                evs = evs + sim.rx(0x80, b"")
+            got = [(c, d) for (t, c, dlc, d, f) in S.txs(evs) if c == cid]
+            if got:
+                return fail("activation/incomplete-mapping/tpdo", "TPDO%d (count %d covers an empty entry, COB-ID %x, mode %d) transmitted %r" % (
+                    p.num, p.count, p.cob, w.mode, [("%x" % c, d.hex()) for c, d in got[:3]]))
+        else:
+            sim.rx(cid, gen.rand_bytes(w.rng, 8))
+            sim.rx(0x80, b"")
+            for k, ob in w.objs.items():
+                r2 = sim.ret("rd %x %x %d" % (k[0], k[1], ob[0]))
+                if int(r2[1], 16) != ob[2]:
+                    return fail("activation/incomplete-mapping/rpdo", "frame for RPDO%d whose count covers an empty entry changed object %04x:%d" % (p.num, k[0], k[1]))
         return True
     r = sim.ret(("tpdo %d" if p.tx else "rpdo %d") % p.num)
     ident = int(r[0], 16)
